@@ -72,13 +72,21 @@ func (s *socket) addPipe(tp transport.Pipe, d *dialer, l *listener) {
 
 	p.lock.Lock()
 	if p.closing {
+		// Closed by the hook before it was ever added: there will be
+		// no detach, so release the list entry and the ID here.
 		p.lock.Unlock()
+		s.pipes.Remove(p)
+		pipeIDs.Free(p.id)
 		return
 	}
 	if s.proto.AddPipe(p) != nil {
 		p.lock.Unlock()
 		s.pipes.Remove(p)
-		go p.close()
+		go func() {
+			p.close()
+			// Never added, so remPipe will not release the ID.
+			pipeIDs.Free(p.id)
+		}()
 		return
 	}
 	p.added = true
